@@ -82,6 +82,12 @@ class TreeTheory(MarkerTheory):
             return x.text
         return super().to_str(ex, x)
 
+    def str_concat(self, ex, parts):
+        t = atom_text_of(parts)
+        if t is not None:
+            return t
+        return super().str_concat(ex, parts)
+
     def equals(self, ex, l, r):
         for a, c in ((l, r), (r, l)):
             if isinstance(a, AbsObj) and a.term.sort() == PT and isinstance(c, str):
@@ -181,6 +187,69 @@ class BuildMarkers(Contract):
         return [("nonempty", groups.n >= 1),
                 ("closed-groups", closed == D.f(st.k)),
                 ("open-group", ev(z3.Select(groups.arr, groups.n - 1)) == G.f(st.k))]
+
+
+class AtomText:
+    """the text MarkerExpression.__str__ produced: `<variable> <op> "<literal>"` or `"<literal>" <op> <variable>`"""
+
+    def __init__(self, var, op, lit, var_first):
+        self.var, self.op, self.lit, self.var_first = var, op, lit, var_first
+
+
+def atom_text_of(parts):
+    """recognises the two renderings from the pieces of the f-string (adjacent constant pieces merged)"""
+    import re
+    merged = []
+    for p in parts:
+        if isinstance(p, str) and merged and isinstance(merged[-1], str):
+            merged[-1] += p
+        else:
+            merged.append(p)
+    sym = lambda x: z3.is_expr(x) and z3.is_string(x)
+    if len(merged) == 4 and sym(merged[0]) and isinstance(merged[1], str) and sym(merged[2]) and merged[3] == '"':
+        m = re.fullmatch(r' (\S+(?: in)?) "', merged[1])
+        if m:
+            return AtomText(merged[0], m.group(1), merged[2], True)
+    if len(merged) == 4 and merged[0] == '"' and sym(merged[1]) and isinstance(merged[2], str) and sym(merged[3]):
+        m = re.fullmatch(r'" (\S+(?: in)?) ', merged[2])
+        if m:
+            return AtomText(merged[3], m.group(1), merged[1], False)
+    return None
+
+
+def roundtrip_cases(th):
+    """C07, atoms: _build_markers(parse(str(atom))) is the atom again (same variable, operator, literal, operand order), for the ten operators and both
+    operand orders.  A-PKG-PARSE: packaging reads `V op "L"` as the triple (Variable V, Op op, Value L) and `"L" op V` as (Value L, Op op, Variable V)."""
+    f = th.index.func(Q)
+    ME = th.index.cls("MarkerExpression")
+    str_f, _ = th.index.find_method(ME, "__str__")
+    for op in MIRROR:
+        for rev in (False, True):
+            name, value = z3.String(fresh_name("name")), z3.String(fresh_name("value"))
+            a = Obj(ME, {"name": name, "op": op, "value": value, "reversed": rev, "_specifier": None})
+
+            def thunk(ex, a=a):
+                text = ex.call_function(str_f, [a], inline=True)
+                if not isinstance(text, AtomText):
+                    return (text, None)
+                triple = (Token("Variable", text.var), Token("Op", text.op), Token("Value", text.lit)) if text.var_first else \
+                         (Token("Value", text.lit), Token("Op", text.op), Token("Variable", text.var))
+                return (text, ex.call_function(f, [triple], inline=True))
+
+            def post(ex, v, a=a, op=op, rev=rev):
+                text, back = v
+                if not isinstance(text, AtomText):
+                    return [("C07.atom.renders-as-an-atom", z3.BoolVal(False))]
+                if not (isinstance(back, Obj) and back.cls.name == "MarkerExpression"):
+                    return [("C07.atom.reparses-to-an-atom", z3.BoolVal(False))]
+                fb = back.fields
+                same_rev = fb.get("reversed") is rev or (z3.is_expr(fb.get("reversed")) and z3.is_true(z3.simplify(fb["reversed"] == rev)))
+                return [("C07.atom.written-operand-order", z3.BoolVal(text.var_first == (not rev))),
+                        ("C07.atom.roundtrip-same-variable", fb["name"] == a.fields["name"]),
+                        ("C07.atom.roundtrip-same-literal", fb["value"] == a.fields["value"]),
+                        ("C07.atom.roundtrip-same-operator", z3.BoolVal(fb.get("op") == op)),
+                        ("C07.atom.roundtrip-same-operand-order", z3.BoolVal(bool(same_rev)))]
+            yield {"name": f"roundtrip.{op}.{'literal-first' if rev else 'var-first'}", "pre": [], "thunk": thunk, "post": post, "args": ()}
 
 
 def setup(ix):
